@@ -472,7 +472,33 @@ func ruleC01LatestLookupUsesMarker(c *Ctx) {
 			c.CallSites++
 			ok := false
 			why := describeOperand(a)
-			if ld, isL := a.(*ssa.UnOp); isL && ld.Op == token.MUL {
+			// a helper of the package that builds the marker from the id it is given
+			if cv, isC := resolve(a).(*ssa.Call); isC {
+				if h := staticCallee(cv); h != nil && h.Blocks != nil && h.Pkg == f.Pkg && len(cv.Call.Args) == 1 && len(h.Params) == 1 && len(f.Params) > 1 && resolve(cv.Call.Args[0]) == ssa.Value(f.Params[1]) {
+					all, any := true, false
+					for _, hr := range returnsOf(h) {
+						any = true
+						lit := allocOf(returnedValue(hr, 0))
+						if lit == nil {
+							if ld2, isL2 := returnedValue(hr, 0).(*ssa.UnOp); isL2 {
+								lit, _ = ld2.X.(*ssa.Alloc)
+							}
+						}
+						if lit == nil {
+							all = false
+							continue
+						}
+						fl := litFields(lit)
+						_, hasCreated := fl["Created"]
+						idv, hasID := fl["ID"]
+						if hasCreated || !hasID || resolve(idv) != ssa.Value(h.Params[0]) {
+							all = false
+						}
+					}
+					ok = all && any
+				}
+			}
+			if ld, isL := a.(*ssa.UnOp); !ok && isL && ld.Op == token.MUL {
 				if al, isA := ld.X.(*ssa.Alloc); isA {
 					whole := 0
 					for _, r := range *al.Referrers() {
@@ -862,4 +888,81 @@ func ruleC18WrappersKeepOptionalInterfaces(c *Ctx) {
 		}
 	}
 	c.ok("Metastore/wrappers", "", "no decorator hides "+strings.Join(opt, ", "))
+}
+
+// ---------------------------------------------------------------------------------------------
+// C11.reader-copies-only-to-caller
+
+// ruleC11ReaderCopiesOnlyToCaller: secrets.Reader is the SDK's own consumer of WithBytes. The protected bytes its
+// callback is shown leave the callback only into the buffer the caller of Read supplied: no read-ahead slice, no field
+// of the Reader, no append. Anything else is a copy of the secret in ordinary heap memory — unlocked, dumpable, never
+// wiped, and still there after the secret is closed.
+func ruleC11ReaderCopiesOnlyToCaller(c *Ctx) {
+	u := c.U1
+	c.rule("C11.reader-copies-only-to-caller", "in secrets.Reader.Read the callback's view of the protected bytes (and every re-slice of it) is used only as the source of copy(p, …) into Read's own buffer parameter, in len() and in comparisons — never appended, stored or copied anywhere else", 1)
+	f := u.Method(pkgSecrets, "Reader", "Read")
+	if f == nil {
+		c.unresolved("secrets.Reader.Read", "method")
+		return
+	}
+	n := 0
+	for _, g := range withAnon(f) {
+		if g == f || len(g.Params) == 0 || !isByteSlice(g.Params[0].Type()) {
+			continue
+		}
+		c.FuncsAnalysed[shortName(g)] = true
+		n++
+		c.CallSites++
+		bad := ""
+		badPos := ""
+		seen := map[ssa.Value]bool{}
+		var walk func(v ssa.Value)
+		walk = func(v ssa.Value) {
+			if seen[v] || v.Referrers() == nil {
+				return
+			}
+			seen[v] = true
+			for _, r := range *v.Referrers() {
+				switch x := r.(type) {
+				case *ssa.Slice:
+					if x.X == v {
+						walk(x)
+					}
+				case *ssa.Phi:
+					walk(x)
+				case *ssa.DebugRef, *ssa.BinOp, *ssa.IndexAddr, *ssa.Index:
+				case *ssa.Call:
+					b, isB := x.Call.Value.(*ssa.Builtin)
+					switch {
+					case isB && b.Name() == "len", isB && b.Name() == "cap":
+					case isB && b.Name() == "copy" && len(x.Call.Args) == 2 && x.Call.Args[1] == v:
+						// destination must be Read's own buffer parameter (captured)
+						dst := trimAddr(accessPath(x.Call.Args[0]))
+						if len(f.Params) < 2 || dst != "P:"+f.Params[1].Name() {
+							bad, badPos = "copied into "+describeOperand(x.Call.Args[0])+" (not the caller's buffer)", u.ipos(x)
+						}
+					default:
+						bad, badPos = "handed to "+calleeLabel(x), u.ipos(x)
+					}
+				case *ssa.Store:
+					if x.Val == v {
+						bad, badPos = "stored into "+describeOperand(x.Addr), u.ipos(x)
+					}
+				default:
+					if inst, ok := r.(ssa.Instruction); ok {
+						bad, badPos = "used by "+instrText(inst), u.ipos(inst)
+					}
+				}
+			}
+		}
+		walk(g.Params[0])
+		if bad == "" {
+			c.ok("secrets.Reader.Read/callback", u.pos(g.Pos()), "protected bytes only copied into the caller's buffer")
+		} else {
+			c.bad("secrets.Reader.Read/callback", badPos, "the protected bytes shown to the Reader's callback are "+bad+": a copy of the secret now lives in ordinary heap memory — not locked, not wiped, readable after the secret was closed")
+		}
+	}
+	if n == 0 {
+		c.bad("secrets.Reader.Read/callback", u.pos(f.Pos()), "no WithBytes callback found in Reader.Read")
+	}
 }
